@@ -134,6 +134,10 @@ def gen_ops(rng, cfg, n, focus=None):
                 return rng.choice(cfg['special'])
             if allow_special and 'typed' in cfg['keymap'] and cfg.get('stub') != 'var' and rng.random() < focus.get('p_twin', 0.1) * (2 if cfg.get('stub') == 'req2' else 1):
                 return ('t', rng.randrange(6))
+            if allow_special and cfg.get('stub') == 'var' and cfg['keymap'] not in ('str', 'str-nf') \
+                    and cfg['backend'] not in ('dir', 'direct-dir') and rng.random() < focus.get('p_digits', 0.06):
+                # a string that spells an integer argument ('3' next to 3): a different argument, a different key
+                return ('s', rng.randrange(nargs))
             if allow_special and rng.random() < focus.get('p_float', 0.12):
                 r2 = rng.random()
                 if r2 < 0.18:
